@@ -41,7 +41,7 @@ def in_domain(c):
 
 
 def run(rep, model, tier, seed, broken=()):
-    n = 250 if tier == "quick" else 8000
+    n = 500 if tier == "quick" else 8000
     rng = core.rng_for(seed, "C10")
     gen.set_ascii(True)
     try:
